@@ -21,9 +21,10 @@ PKGS = ["./cmd/instance"]
 DEV_PAR = {"AliasDefaults": {"race"}, "LazyUnsync": {"race", "history"}, "NoStepMutex": {"race", "initonce"},
            "SharedMarks": {"race", "history"}, "SharedInProgress": {"history"},
            "SharedError": {"race", "history"}, "HideRestore": {"race", "history", "input"},
-           "MemoRootUnsync": {"race"}, "ReleaseOutsideLock": {"race"}}
+           "MemoRootUnsync": {"race"}, "ReleaseOutsideLock": {"race"},
+           "CacheEmptyUnsync": {"race", "history"}}
 # kinds whose defects are steady-state (scratch state that must be per call): every goroutine repeats its calls
-STEADY = {"chain", "compat2", "disabled", "oneof"}
+STEADY = {"chain", "compat2", "disabled", "oneof", "emptydef"}
 NS = [2, 4, 8, 16]
 
 
@@ -82,7 +83,7 @@ def make_cases(ctx, scheds, thorough):
     return cases
 
 
-PER_CALL = {"oneof": 0.0006, "disabled": 0.0005, "chain": 0.0003, "compat2": 0.0004, "steps": 0.0004}   # steady-state kinds, seconds
+PER_CALL = {"oneof": 0.0006, "disabled": 0.0005, "chain": 0.0003, "compat2": 0.0004, "steps": 0.0004, "emptydef": 0.0003}   # steady-state kinds, seconds
 
 
 def case_cost(c):
@@ -160,7 +161,8 @@ def run(ctx):
                         must_violate={"SharedMarks": ("instance_devv_par_iso.cfg", "Isolated"),
                                       "SharedInProgress": ("instance_devv_par_iso.cfg", "Isolated"),
                                       "SharedError": ("instance_devv_par_iso.cfg", "Isolated"),
-                                      "HideRestore": ("instance_devv_par_iso.cfg", "Isolated")})
+                                      "HideRestore": ("instance_devv_par_iso.cfg", "Isolated"),
+                                      "CacheEmptyUnsync": ("instance_devv_par_iso.cfg", "Isolated")})
     tm.join()
     th.join()
     for d in (main, build):
